@@ -1,4 +1,5 @@
 import Acra.Drv.SpecFTI
+import Acra.Drv.SpecCh10
 namespace Acra.Drv
-def specFuncs : List Func := specFuncsFTI
+def specFuncs : List Func := specFuncsFTI ++ specFuncsCh10
 end Acra.Drv
